@@ -58,7 +58,8 @@ Next ==
 NextMismatch ==
     /\ steps = <<>> /\ ShapeMismatch
     /\ \E kind \in Kinds \ {"Unary"}, s \in Shapes, s2 \in Shapes :
-         /\ s # s2 /\ Len(s) >= 1 /\ Len(s2) >= 1 /\ Prod(s) > 1 /\ Prod(s2) > 1
+         (* one-element tensors of rank >= 1 are tensors, not scalars: against a different shape they are a mismatch too *)
+         /\ s # s2 /\ Len(s) >= 1 /\ Len(s2) >= 1 /\ (Prod(s) > 1 \/ Prod(s2) > 1)
          (* the library documents a soft equality of the vector shapes (n), (n,1), (1,n): not a mismatch *)
          /\ (Prod(s) # Prod(s2) \/ Cardinality({i \in 1..Len(s) : s[i] > 1}) > 1 \/ Cardinality({i \in 1..Len(s2) : s2[i] > 1}) > 1)
          /\ DoAll(<<Op("New", 0, <<s, "C", "">>), Op("New", 0, <<s2, "C", "">>),
